@@ -151,10 +151,131 @@ spec_adler32(const uint8_t *d, size_t n)
  * out[0..total) is claimed to be a complete stream of wrapper `gzip_flag` for in[0..n).
  * `dec` has capacity n (a decoder producing more reports RFC_OUTFULL). `effective_hist_bits`
  * is the window the encoder was allowed (for the zlib CINFO check). */
-#define DFL_MSG(m) m
+static inline int
+dfl_check_wrap_header(const uint8_t *out, size_t total, int gzip_flag, int effective_hist_bits);
+static inline void
+dfl_check_trailer(const uint8_t *out, size_t total, int gzip_flag, uint8_t *in, size_t n);
+
 static inline void
 dfl_check_stream(const uint8_t *out, size_t total, int gzip_flag, uint8_t *in, size_t n, uint8_t *dec,
                  int effective_hist_bits)
+{
+        int hl = dfl_check_wrap_header(out, total, gzip_flag, effective_hist_bits);
+        size_t tl = dfl_wrap_trl_len(gzip_flag);
+        VASSERT((size_t) hl + tl <= total, "room for header and trailer");
+        struct rfc_res r;
+        rfc1951_inflate(out + hl, total - (size_t) hl, 0, dec, n, (const uint8_t *) 0, 0, &r);
+        VASSERT(r.status == RFC_OK, "reference RFC 1951 decoder accepts the deflate data up to a BFINAL block");
+        VASSERT(r.out_len == n, "decoded length equals input length");
+        for (size_t i = 0; i < n; i++)
+                VASSERT(dec[i] == in[i], "decoded bytes equal input bytes");
+        size_t dend = (size_t) hl + ((r.bit_pos + 7) >> 3);
+        VASSERT(dend + tl == total, "stream consumed to its last byte (deflate end rounded up + trailer == total_out)");
+        /* the trailer is addressed from the end of the stream: the same bytes when the assertion above
+         * holds (a violation is already reported when it does not) */
+        dfl_check_trailer(out, total, gzip_flag, in, n);
+}
+
+/* ---------------------------------------------------------------- guided (script-driven) decoding
+ * The exact oracle above runs the whole reference decoder over bytes whose code lengths depend on the
+ * data: every bit position becomes a symbolic expression and one query costs 10-60 s.  The guided form
+ * checks the same facts block by block and token by token with the primitives of rfc1951.h (rfc_bits,
+ * rfc_fixed_litlen = the RFC 3.2.6 code), but after each token it asserts the bit position the class
+ * vector of the query predicts (see deflate_shim.h) and then continues from that *concrete* position
+ * (assert-then-assign: nothing is assumed, a wrong position is reported as a violation).
+ *
+ * What it asserts beyond the property text (structure expectations, messages prefixed STRUCT): the block
+ * type sequence and the number of literals per block that the configuration (table choice, flush schedule)
+ * implies, and literal-only tokens.  A different but valid encoding would be flagged; the exact oracle is
+ * run on a subset of the same configurations to cross-check the guided one on the unchanged tree.
+ */
+struct dfl_blk {
+        uint8_t btype; /* 0 stored, 1 fixed */
+        uint8_t nlit;  /* literals (fixed) or LEN (stored) */
+};
+
+struct dfl_guided {
+        size_t bit_pos; /* after the last block of the script */
+        size_t out_len;
+        int saw_final;
+};
+
+/* Decode `nblk` blocks starting at bit `start_bit` of in[0..in_len) and compare with exp[0..) (the
+ * original input bytes that these blocks must reproduce).  toklen[] = expected bit length per literal
+ * token in input order (0 = not predicted: position stays symbolic).  want_final: BFINAL expected on
+ * the last block of the script (and on no other). */
+static inline void
+dfl_guided_decode(const uint8_t *in, size_t in_len, size_t start_bit, const struct dfl_blk *blk, int nblk,
+                  const uint8_t *exp, const uint8_t *toklen, int ntoklen, int want_final, struct dfl_guided *g)
+{
+        struct rfc_st s;
+        s.in = in;
+        s.in_bits = in_len * 8;
+        s.pos = start_bit;
+        s.out = 0;
+        s.out_cap = 0;
+        s.out_len = 0;
+        s.dict = 0;
+        s.dict_len = 0;
+        s.eof = 0;
+        s.max_dist = 0;
+        s.nmatches = 0;
+        size_t idx = 0;
+        int tok = 0;
+        int final_seen = 0;
+        for (int b = 0; b < nblk; b++) {
+                int last = (int) rfc_bits(&s, 1);
+                int type = (int) rfc_bits(&s, 2);
+                VASSERT(!s.eof, "block header inside the output");
+                VASSERT(!final_seen, "no block follows a BFINAL block");
+                VASSERT(type == blk[b].btype, "STRUCT: block type as implied by the table choice / fallback");
+                type = blk[b].btype;
+                if (b < nblk - 1 || !want_final)
+                        VASSERT(last == 0, "BFINAL clear on a block that is not the last of the stream");
+                else
+                        VASSERT(last == 1, "BFINAL set on the last block of a finished stream");
+                final_seen = last;
+                if (type == 0) {
+                        s.pos = (s.pos + 7) & ~(size_t) 7;
+                        VASSERT(s.pos + 32 <= s.in_bits, "stored block LEN/NLEN inside the output");
+                        uint32_t len = rfc_bits(&s, 16);
+                        uint32_t nlen = rfc_bits(&s, 16);
+                        VASSERT(len == (~nlen & 0xffff), "stored block NLEN == ~LEN");
+                        VASSERT(len == blk[b].nlit, "STRUCT: stored block length as expected");
+                        len = blk[b].nlit;
+                        VASSERT(s.pos + 8 * (size_t) len <= s.in_bits, "stored payload inside the output");
+                        for (uint32_t i = 0; i < len; i++)
+                                VASSERT(in[(s.pos >> 3) + i] == exp[idx + i], "stored payload byte equals input byte");
+                        idx += len;
+                        s.pos += 8 * (size_t) len;
+                } else {
+                        for (int i = 0; i < blk[b].nlit; i++) {
+                                size_t p0 = s.pos;
+                                int sym = rfc_fixed_litlen(&s);
+                                VASSERT(!s.eof && sym >= 0, "fixed-Huffman symbol inside the output");
+                                VASSERT(sym < 256, "STRUCT: literal token expected");
+                                VASSERT(sym == exp[idx], "decoded literal equals input byte");
+                                if (tok < ntoklen && toklen[tok]) {
+                                        VASSERT(s.pos == p0 + toklen[tok], "literal code length as in the class vector");
+                                        s.pos = p0 + toklen[tok];
+                                }
+                                tok++;
+                                idx++;
+                        }
+                        size_t p0 = s.pos;
+                        int sym = rfc_fixed_litlen(&s);
+                        VASSERT(!s.eof && sym == 256, "end-of-block symbol after the block's literals");
+                        s.pos = p0 + 7; /* 256 is 0000000 (7 bits) in the fixed code; same value when the assertion holds */
+                }
+        }
+        g->bit_pos = s.pos;
+        g->out_len = idx;
+        g->saw_final = final_seen;
+}
+
+/* wrapper header checks shared by exact and guided stream checks; returns header length */
+static inline int
+dfl_check_wrap_header(const uint8_t *out, size_t total, int gzip_flag, int effective_hist_bits)
 {
         int hl = 0;
         if (gzip_flag == IGZIP_GZIP) {
@@ -167,16 +288,14 @@ dfl_check_stream(const uint8_t *out, size_t total, int gzip_flag, uint8_t *in, s
                 VASSERT(fdict == 0, "zlib FDICT clear (no dictionary was set)");
                 VASSERT(cinfo + 8 >= effective_hist_bits, "zlib CINFO window covers the window the encoder may use");
         }
+        return hl;
+}
+
+static inline void
+dfl_check_trailer(const uint8_t *out, size_t total, int gzip_flag, uint8_t *in, size_t n)
+{
         size_t tl = dfl_wrap_trl_len(gzip_flag);
-        VASSERT((size_t) hl + tl <= total, "room for header and trailer");
-        struct rfc_res r;
-        rfc1951_inflate(out + hl, total - (size_t) hl, 0, dec, n, (const uint8_t *) 0, 0, &r);
-        VASSERT(r.status == RFC_OK, "reference RFC 1951 decoder accepts the deflate data up to a BFINAL block");
-        VASSERT(r.out_len == n, "decoded length equals input length");
-        for (size_t i = 0; i < n; i++)
-                VASSERT(dec[i] == in[i], "decoded bytes equal input bytes");
-        size_t dend = (size_t) hl + ((r.bit_pos + 7) >> 3);
-        VASSERT(dend + tl == total, "stream consumed to its last byte (deflate end rounded up + trailer == total_out)");
+        size_t dend = total - tl;
         if (tl == 8) {
                 uint32_t crc = crc32_gzip_refl_base(0, in, n);
                 uint32_t got_crc = (uint32_t) out[dend] | ((uint32_t) out[dend + 1] << 8) |
@@ -191,6 +310,23 @@ dfl_check_stream(const uint8_t *out, size_t total, int gzip_flag, uint8_t *in, s
                                ((uint32_t) out[dend + 2] << 8) | (uint32_t) out[dend + 3];
                 VASSERT(got == ad, "zlib trailer Adler-32 (big endian) of the input");
         }
+}
+
+/* complete stream, guided form of dfl_check_stream */
+static inline void
+dfl_check_stream_guided(const uint8_t *out, size_t total, int gzip_flag, uint8_t *in, size_t n,
+                        const struct dfl_blk *blk, int nblk, const uint8_t *toklen, int ntoklen,
+                        int effective_hist_bits)
+{
+        int hl = dfl_check_wrap_header(out, total, gzip_flag, effective_hist_bits);
+        size_t tl = dfl_wrap_trl_len(gzip_flag);
+        VASSERT((size_t) hl + tl <= total, "room for header and trailer");
+        struct dfl_guided g;
+        dfl_guided_decode(out + hl, total - (size_t) hl, 0, blk, nblk, in, toklen, ntoklen, 1, &g);
+        VASSERT(g.out_len == n, "decoded length equals input length");
+        VASSERT((size_t) hl + ((g.bit_pos + 7) >> 3) + tl == total,
+                "stream consumed to its last byte (deflate end rounded up + trailer == total_out)");
+        dfl_check_trailer(out, total, gzip_flag, in, n);
 }
 
 /* one-shot bound of the property text: n + 5 per started 65535-byte block (min one) + wrapper */
